@@ -218,6 +218,37 @@ def run_case(i, tier, seed):
                     violations.append({"what": f"load reads: {m}",
                                        "detail": {"type": typ, "shape": [lines, pixels], "rpc": rpc, "selection": sel,
                                                   "reads": [e[2:] for e in log if e[0] == "read"][:12]}})
+        # ---- backend level: the image object below xarray's lazy layer also accepts lists of lines (unsorted, with
+        # duplicates); xarray itself only hands it ints and slices.  If the object cannot be reached or does not accept
+        # lists any more, this block observes nothing (it is not a required monitor).
+        backend = None
+        try:
+            node = lazy.variable._data
+            for _ in range(4):
+                if type(node).__name__ == "Array" and hasattr(node, "byte_ranges"):
+                    backend = node
+                    break
+                node = getattr(node, "array")
+        except Exception:
+            backend = None
+        if backend is not None:
+            for _ in range(40 if tier == "quick" else 150):
+                k = rng.randrange(1, 8)
+                rows = [rng.randrange(0, lines) for _ in range(k)]
+                tracefs.reset_log()
+                try:
+                    backend[(rows, slice(None))]
+                except Exception:
+                    continue
+                log = list(tracefs.LOG)
+                errs, ngroups = check_load_log(log, path, im, rpc, size, rows)
+                obs["backend_level_loads"] = obs.get("backend_level_loads", 0) + 1
+                obs["read_events"] += len([e for e in log if e[0] == "read"])
+                for m in errs[:2]:
+                    if len(violations) < 8:
+                        violations.append({"what": f"load reads (image object indexed with a list of lines {rows}): {m}",
+                                           "detail": {"type": typ, "shape": [lines, pixels], "rpc": rpc,
+                                                      "reads": [e[2:] for e in log if e[0] == "read"][:12]}})
     finally:
         synth.uninstall(files, root, "vfs")
     return {"sig": sigs, "evals": obs["loads_checked"], "violations": violations, "obs": obs, "sample": sample,
